@@ -94,21 +94,27 @@ Qed.
 
 Inductive rd_equiv : rd -> rd -> Prop :=
 | re_none : rd_equiv RNone RNone
-| re_val x y : x == y -> rd_equiv (RVal x) (RVal y).
+| re_val x y : x == y -> rd_equiv (RVal x) (RVal y)
+| re_err : rd_equiv RErr RErr.
 
 Lemma rd_equiv_refl r : rd_equiv r r.
-Proof. destruct r; constructor. reflexivity. Qed.
+Proof. destruct r; constructor; reflexivity. Qed.
+
+(* results of the partial property functions: both raise, or both return numerically equal values *)
+Inductive oq_equiv : option Q -> option Q -> Prop :=
+| oe_none : oq_equiv None None
+| oe_some x y : x == y -> oq_equiv (Some x) (Some y).
 
 Section Proofs.
-Variable calc1 : nat -> nat -> option phase -> vec -> Q -> Q -> Q.
-Variable calcx : nat -> nat -> list (phase * vec) -> Q -> Q -> Q.
+Variable calc1 : nat -> nat -> option phase -> vec -> Q -> Q -> option Q.
+Variable calcx : nat -> nat -> list (phase * vec) -> Q -> Q -> option Q.
 Variable shared_key : bool.
 
 (* the property-package functions respect numeric equality of their arguments *)
 Definition calc1_respects : Prop := forall pkg name p z z' T T' P P',
-  veqb z z' = true -> T == T' -> P == P' -> calc1 pkg name p z T P == calc1 pkg name p z' T' P'.
+  veqb z z' = true -> T == T' -> P == P' -> oq_equiv (calc1 pkg name p z T P) (calc1 pkg name p z' T' P').
 Definition calcx_respects : Prop := forall pkg name l l' T T' P P',
-  pz_eqb l l' = true -> T == T' -> P == P' -> calcx pkg name l T P == calcx pkg name l' T' P'.
+  pz_eqb l l' = true -> T == T' -> P == P' -> oq_equiv (calcx pkg name l T P) (calcx pkg name l' T' P').
 
 Hypothesis calc1_ext : calc1_respects.
 Hypothesis calcx_ext : calcx_respects.
@@ -119,7 +125,7 @@ Notation spec_read := (spec_read calc1 calcx).
 Notation read_all := (read_all calc1 calcx).
 
 Lemma value_at_ext pkg name l0 c0 lit ck :
-  key_matches (Some (l0, c0)) lit ck = true -> value_at pkg name lit ck == value_at pkg name l0 c0.
+  key_matches (Some (l0, c0)) lit ck = true -> oq_equiv (value_at pkg name lit ck) (value_at pkg name l0 c0).
 Proof.
   cbn [key_matches]. intros H. apply Bool.andb_true_iff in H as [HL HC].
   unfold literal_eqb in HL. apply Bool.andb_true_iff in HL as [HL HP]. apply Bool.andb_true_iff in HL as [HPh HT].
@@ -155,7 +161,7 @@ Definition memo_ok (c : cstate) : Prop :=
   forall i, (i < nobj c)%nat -> forall lit ck,
     key_of c (c_k (cobj_of c i)) = Some (lit, ck) ->
     forall name v, mget (memo_of c (c_m (cobj_of c i))) name = Some v ->
-      v == value_at (c_pkg (cobj_of c i)) name lit ck.
+      exists v', value_at (c_pkg (cobj_of c i)) name lit ck = Some v' /\ v == v'.
 
 Definition Inv (c : cstate) : Prop := cwf c /\ lockstep c /\ memo_ok c.
 
@@ -168,23 +174,21 @@ Proof.
 Qed.
 
 (* ---------- a memo write preserves the invariant ---------- *)
-Lemma write_inv c i lit ck name m1 :
+Lemma write_inv c i lit ck m2 :
   Inv c -> (i < nobj c)%nat ->
-  (m1 = [] \/ (m1 = memo_of c (c_m (cobj_of c i)) /\
-               key_matches (key_of c (c_k (cobj_of c i))) lit ck = true)) ->
+  (forall name' v', mget m2 name' = Some v' ->
+     exists v0, value_at (c_pkg (cobj_of c i)) name' lit ck = Some v0 /\ v' == v0) ->
   Inv (mkcs (cobjs c) (upd (keys c) (c_k (cobj_of c i)) (Some (lit, ck)))
-            (upd (memos c) (c_m (cobj_of c i))
-                 (mset m1 name (value_at (c_pkg (cobj_of c i)) name lit ck)))).
+            (upd (memos c) (c_m (cobj_of c i)) m2)).
 Proof.
-  intros (WF & LS & MO) Hi Hm1.
+  intros (WF & LS & MO) Hi Hm2.
   destruct (WF i Hi) as [Hk Hm].
   remember (cobj_of c i) as co eqn:Eco.
-  remember (value_at (c_pkg co) name lit ck) as v0 eqn:Ev0.
-  set (c' := mkcs (cobjs c) (upd (keys c) (c_k co) (Some (lit, ck))) (upd (memos c) (c_m co) (mset m1 name v0))).
+  set (c' := mkcs (cobjs c) (upd (keys c) (c_k co) (Some (lit, ck))) (upd (memos c) (c_m co) m2)).
   assert (EC : forall j, cobj_of c' j = cobj_of c j) by reflexivity.
   assert (EN : nobj c' = nobj c) by reflexivity.
   assert (EK : forall r, key_of c' r = nth r (upd (keys c) (c_k co) (Some (lit, ck))) None) by reflexivity.
-  assert (EM : forall r, memo_of c' r = nth r (upd (memos c) (c_m co) (mset m1 name v0)) []) by reflexivity.
+  assert (EM : forall r, memo_of c' r = nth r (upd (memos c) (c_m co) m2) []) by reflexivity.
   assert (LK : length (keys c') = length (keys c)) by (unfold c'; cbn; apply upd_length).
   assert (LM : length (memos c') = length (memos c)) by (unfold c'; cbn; apply upd_length).
   clearbody c'.
@@ -200,62 +204,74 @@ Proof.
       rewrite <- EKK in HK. rewrite <- EMM in HV. rewrite <- EP.
       rewrite nth_upd_same_ref in HK by exact Hk. injection HK as <- <-.
       rewrite nth_upd_same_ref in HV by exact Hm.
-      rewrite mget_mset in HV.
-      destruct (Nat.eqb_spec name name') as [ENN|NN].
-      * subst name'. injection HV as <-. rewrite Ev0. reflexivity.
-      * destruct Hm1 as [E | [E KM]]; subst m1; [discriminate HV|].
-        destruct (key_of c (c_k co)) as [[l0 c0]|] eqn:OK; [|discriminate KM].
-        rewrite (value_at_ext _ _ _ _ _ _ KM).
-        rewrite Eco. rewrite Eco in OK, HV. apply (MO i Hi l0 c0); [exact OK | exact HV].
+      apply Hm2. exact HV.
     + assert (NK : c_k co <> c_k (cobj_of c j)) by (intros E; apply NM, LSa; exact E).
       rewrite nth_upd_other_ref in HK by exact NK.
       rewrite nth_upd_other_ref in HV by exact NM.
       apply (MO j Hj lit' ck'); assumption.
 Qed.
 
+(* what the clear leaves in the dict is valid for the new key *)
+Lemma kept_valid c i lit ck :
+  Inv c -> (i < nobj c)%nat ->
+  let hit := key_matches (key_of c (c_k (cobj_of c i))) lit ck in
+  let m1 := if hit then memo_of c (c_m (cobj_of c i)) else [] in
+  forall name' v', mget m1 name' = Some v' ->
+    exists v0, value_at (c_pkg (cobj_of c i)) name' lit ck = Some v0 /\ v' == v0.
+Proof.
+  intros (WF & LS & MO) Hi hit m1 name' v' HV. unfold m1, hit in *.
+  destruct (key_matches (key_of c (c_k (cobj_of c i))) lit ck) eqn:KM; [|discriminate HV].
+  destruct (key_of c (c_k (cobj_of c i))) as [[l0 c0]|] eqn:OK; [|discriminate KM].
+  destruct (MO i Hi l0 c0 OK name' v' HV) as (v1 & E1 & Q1).
+  pose proof (value_at_ext (c_pkg (cobj_of c i)) name' l0 c0 lit ck KM) as X. rewrite E1 in X.
+  inversion X as [|x y Exy Ex Ey]. subst. exists x. split; [reflexivity|]. rewrite Q1. symmetry. exact Exy.
+Qed.
+
 (* ---------- _get_property ---------- *)
+Ltac gp_cases w i name nophase :=
+  unfold Model.get_property;
+  destruct (cur_key (w_st w) i nophase) as [[[total lit] ck]|]; [|try reflexivity];
+  [ destruct (if key_matches (key_of (w_cs w) (c_k (cobj_of (w_cs w) i))) lit ck
+              then mget (memo_of (w_cs w) (c_m (cobj_of (w_cs w) i))) name else None) as [v|]; [try reflexivity|];
+    destruct (Model.value_at calc1 calcx (c_pkg (cobj_of (w_cs w) i)) name lit ck) as [v|]; try reflexivity | .. ].
+
 Lemma get_property_st w i name flow nophase :
   w_st (fst (get_property w i name flow nophase)) = w_st w.
-Proof.
-  unfold Model.get_property.
-  destruct (cur_key (w_st w) i nophase) as [[[total lit] ck]|]; [|reflexivity].
-  match goal with |- context [match ?x with Some _ => _ | None => _ end] => destruct x end; reflexivity.
-Qed.
+Proof. gp_cases w i name nophase. Qed.
 
 Lemma get_property_cobjs w i name flow nophase :
   cobjs (w_cs (fst (get_property w i name flow nophase))) = cobjs (w_cs w).
-Proof.
-  unfold Model.get_property.
-  destruct (cur_key (w_st w) i nophase) as [[[total lit] ck]|]; [|reflexivity].
-  match goal with |- context [match ?x with Some _ => _ | None => _ end] => destruct x end; reflexivity.
-Qed.
+Proof. gp_cases w i name nophase. Qed.
 
 Lemma get_property_inv w i name flow nophase :
   Inv (w_cs w) -> (i < nobj (w_cs w))%nat -> Inv (w_cs (fst (get_property w i name flow nophase))).
 Proof.
   intros HI Hi. unfold Model.get_property.
   destruct (cur_key (w_st w) i nophase) as [[[total lit] ck]|]; [|exact HI].
-  destruct (key_matches (key_of (w_cs w) (c_k (cobj_of (w_cs w) i))) lit ck) eqn:KM.
-  - destruct (mget (memo_of (w_cs w) (c_m (cobj_of (w_cs w) i))) name) as [v|] eqn:MG; [exact HI|].
-    cbn [fst w_cs]. apply write_inv; auto.
-  - cbn [fst w_cs]. apply write_inv; auto.
+  pose proof (kept_valid (w_cs w) i lit ck HI Hi) as KV. cbv zeta in KV.
+  destruct (if key_matches (key_of (w_cs w) (c_k (cobj_of (w_cs w) i))) lit ck
+            then mget (memo_of (w_cs w) (c_m (cobj_of (w_cs w) i))) name else None) as [v|]; [exact HI|].
+  destruct (Model.value_at calc1 calcx (c_pkg (cobj_of (w_cs w) i)) name lit ck) as [v|] eqn:EV; cbn [fst w_cs].
+  - apply write_inv; auto. intros name' v' HV. rewrite mget_mset in HV.
+    destruct (Nat.eqb_spec name name') as [<-|NN].
+    + injection HV as <-. exists v. split; [exact EV | reflexivity].
+    + apply KV; exact HV.
+  - apply write_inv; auto.
 Qed.
 
 Lemma get_property_spec w i name flow nophase :
   Inv (w_cs w) -> (i < nobj (w_cs w))%nat ->
   rd_equiv (snd (get_property w i name flow nophase)) (spec_read w i name flow nophase).
 Proof.
-  intros (WF & LS & MO) Hi. unfold Model.get_property, Model.spec_read.
+  intros HI Hi. unfold Model.get_property, Model.spec_read.
   destruct (cur_key (w_st w) i nophase) as [[[total lit] ck]|]; [|apply rd_equiv_refl].
+  pose proof (kept_valid (w_cs w) i lit ck HI Hi) as KV. cbv zeta in KV.
   destruct (key_matches (key_of (w_cs w) (c_k (cobj_of (w_cs w) i))) lit ck) eqn:KM.
   - destruct (mget (memo_of (w_cs w) (c_m (cobj_of (w_cs w) i))) name) as [v|] eqn:MG.
-    + cbn [snd]. unfold out_val. constructor.
-      destruct (key_of (w_cs w) (c_k (cobj_of (w_cs w) i))) as [[l0 c0]|] eqn:OK; [|discriminate KM].
-      assert (E : v == value_at (c_pkg (cobj_of (w_cs w) i)) name lit ck).
-      { rewrite (value_at_ext _ _ _ _ _ _ KM). apply (MO i Hi l0 c0); assumption. }
-      destruct flow; rewrite E; reflexivity.
-    + cbn [snd]. apply rd_equiv_refl.
-  - cbn [snd]. apply rd_equiv_refl.
+    + cbn [snd]. destruct (KV name v MG) as (v0 & E0 & Q0). rewrite E0. unfold out_val. constructor.
+      destruct flow; rewrite Q0; reflexivity.
+    + destruct (Model.value_at calc1 calcx (c_pkg (cobj_of (w_cs w) i)) name lit ck); cbn [snd]; apply rd_equiv_refl.
+  - destruct (Model.value_at calc1 calcx (c_pkg (cobj_of (w_cs w) i)) name lit ck); cbn [snd]; apply rd_equiv_refl.
 Qed.
 
 (* ---------- reset_cache ---------- *)
@@ -410,18 +426,18 @@ Qed.
 
 Lemma creach_read_all l s c c' :
   Forall (fun j => (j < nobj c)%nat) l ->
-  creach (w_cs (read_all (mkw s c) l)) c' -> creach c c'.
+  creach (w_cs (fst (read_all (mkw s c) l))) c' -> creach c c'.
 Proof.
   revert s c; induction l as [|j t IH]; intros s c HF H; cbn in H; auto.
   inversion HF as [|? ? Hj Ht]; subst.
   apply (cr_get c c' s j O true false Hj).
-  remember (fst (get_property (mkw s c) j O true false)) as w1 eqn:E.
-  destruct w1 as [s1 c1]. cbn [w_cs].
-  apply (IH s1 c1).
-  - assert (EC : cobjs c1 = cobjs c).
-    { change c1 with (w_cs (mkw s1 c1)). rewrite E. apply (get_property_cobjs (mkw s c)). }
-    unfold nobj in *. rewrite EC. exact Ht.
-  - exact H.
+  destruct (get_property (mkw s c) j O true false) as [w1 r] eqn:E. cbn [fst].
+  assert (EC : cobjs (w_cs w1) = cobjs c).
+  { replace w1 with (fst (get_property (mkw s c) j O true false)) by (rewrite E; reflexivity).
+    apply (get_property_cobjs (mkw s c)). }
+  destruct w1 as [s1 c1]. cbn [w_cs] in *.
+  destruct r; cbn [fst w_cs] in H; try exact H;
+    (apply (IH s1 c1); [unfold nobj in *; rewrite EC; exact Ht | exact H]).
 Qed.
 
 Lemma lift_cs w r : w_cs (fst (lift w r)) = w_cs w.
@@ -458,11 +474,12 @@ Proof.
     unfold reset_cache. eapply creach_reset_list; eapply creach_reset_list; apply cr_refl.
   - (* OMix *)
     destruct energy.
-    + rewrite lift_cs. cbn [w_cs].
-      apply creach_read_all with (l := srcs) (s := s).
-      * apply Forall_forall. intros j Hj. apply GV. cbn. right. exact Hj.
-      * apply cr_refl.
-    + cbn [fst w_cs]. apply cr_refl.
+    + assert (F : Forall (fun j => (j < nobj c)%nat) srcs)
+        by (apply Forall_forall; intros j Hj; apply GV; cbn; right; exact Hj).
+      pose proof (fun c' => creach_read_all srcs s c c' F) as R.
+      destruct (read_all (mkw s c) srcs) as [w1 allok]. cbn [fst] in R.
+      destruct allok; cbn [negb]; [rewrite lift_cs; cbn [w_cs] | cbn [fst]]; apply R, cr_refl.
+    + cbn [fst w_cs negb]. apply cr_refl.
   - (* OView *)
     destruct (i_multi (imol_of s (o_imol (obj_of s i)))).
     + destruct (negb (o_hasv (obj_of s i))); [apply cr_refl|].
@@ -532,7 +549,7 @@ Lemma read_op_fresh ops w i name flow nophase :
   shared_key = true \/ forallb (fun o => negb (is_proxy o)) ops = true ->
   Inv (w_cs w) ->
   let w' := run_world w ops in
-  (exists r, snd (step w' (ORead i name flow nophase)) = BVal r /\
+  (exists r, snd (step w' (ORead i name flow nophase)) = match r with RErr => BErr ERuntime | _ => BVal r end /\
              rd_equiv r (spec_read w' i name flow nophase) /\
              w_st (fst (step w' (ORead i name flow nophase))) = w_st w')
   \/ ((nobj (w_cs w') <= i)%nat /\ step w' (ORead i name flow nophase) = (w', BErr EIndex)).
@@ -617,7 +634,12 @@ Qed.
 
 Lemma stub_calc1_respects : calc1_respects stub_calc1.
 Proof.
-  intros pkg name p z z' T T' P P' HZ HT HP. unfold stub_calc1.
+  intros pkg name p z z' T T' P P' HZ HT HP. unfold stub_calc1, stub_raises.
+  assert (EQ : Qeq_bool T 384 = Qeq_bool T' 384).
+  { destruct (Qeq_bool T 384) eqn:A, (Qeq_bool T' 384) eqn:B; auto.
+    - apply Qeq_bool_iff in A. rewrite HT in A. apply Qeq_bool_iff in A. congruence.
+    - apply Qeq_bool_iff in B. rewrite <- HT in B. apply Qeq_bool_iff in B. congruence. }
+  rewrite EQ. destruct ((Nat.eqb name 4 || Nat.eqb name 5) && Qeq_bool T' 384)%bool; constructor.
   rewrite (vdot_respects _ _ _ HZ), HT, HP. reflexivity.
 Qed.
 
@@ -625,17 +647,20 @@ Lemma stub_calcx_respects : calcx_respects stub_calcx.
 Proof.
   intros pkg name l l' T T' P P' HL HT HP. unfold stub_calcx.
   revert l' HL; induction l as [|[p z] l IH]; intros [|[p' z'] l'] HL; cbn in HL; try discriminate; cbn [map fold_right].
-  - reflexivity.
+  - constructor. reflexivity.
   - apply Bool.andb_true_iff in HL as [H1 H2]. apply Bool.andb_true_iff in H1 as [Hp Hz]. cbn in Hp, Hz.
     apply Nat.eqb_eq in Hp; subst p'. cbn [fst snd].
-    rewrite (IH l' H2). rewrite (stub_calc1_respects pkg name (Some p) z z' T T' P P' Hz HT HP). reflexivity.
+    pose proof (stub_calc1_respects pkg name (Some p) z z' T T' P P' Hz HT HP) as A.
+    pose proof (IH l' H2) as B.
+    inversion A as [|x y Exy]; inversion B as [|u v Euv]; constructor.
+    rewrite Exy, Euv. reflexivity.
 Qed.
 
 Definition rd_equivb (a b : rd) : bool :=
-  match a, b with RNone, RNone => true | RVal x, RVal y => Qeq_bool x y | _, _ => false end.
+  match a, b with RNone, RNone => true | RVal x, RVal y => Qeq_bool x y | RErr, RErr => true | _, _ => false end.
 Lemma rd_equivb_false a b : rd_equivb a b = false -> ~ rd_equiv a b.
 Proof.
-  intros H E. destruct E as [|x y E]; cbn in H; [discriminate|].
+  intros H E. destruct E as [|x y E|]; cbn in H; [discriminate| |discriminate].
   apply Qeq_bool_iff in E. congruence.
 Qed.
 (* ---------- object table alignment: objs (state side) and cobjs (cache side) grow together ---------- *)
@@ -782,8 +807,8 @@ Lemma by_volume_objs s i : objs (fst (by_volume s i)) = objs s.
 Proof. unfold by_volume. destruct (find_dc _ _); reflexivity. Qed.
 
 Section Align.
-Variable calc1 : nat -> nat -> option phase -> vec -> Q -> Q -> Q.
-Variable calcx : nat -> nat -> list (phase * vec) -> Q -> Q -> Q.
+Variable calc1 : nat -> nat -> option phase -> vec -> Q -> Q -> option Q.
+Variable calcx : nat -> nat -> list (phase * vec) -> Q -> Q -> option Q.
 Variable shared_key : bool.
 Variable cvol : nat -> phase -> Q -> Q -> Q.
 
@@ -792,14 +817,24 @@ Definition aligned (w : world) : Prop := length (objs (w_st w)) = length (cobjs 
 Lemma reset_cache_len pk s c i : length (cobjs (reset_cache pk s c i)) = length (cobjs c).
 Proof. unfold reset_cache. change (length (cobjs ?x)) with (nobj x). rewrite !reset_cache_list_nobj. reflexivity. Qed.
 
-Lemma read_all_aligned l w : aligned w -> aligned (read_all calc1 calcx w l).
+Lemma read_all_st l w : w_st (fst (read_all calc1 calcx w l)) = w_st w.
 Proof.
-  revert w; induction l as [|j t IH]; intros w A; cbn; auto.
-  apply IH. unfold aligned in *. rewrite get_property_st, get_property_cobjs. exact A.
+  revert w; induction l as [|j t IH]; intros w; cbn; auto.
+  pose proof (get_property_st calc1 calcx w j O true false) as G.
+  destruct (get_property calc1 calcx w j O true false) as [w1 r]. cbn [fst] in G.
+  destruct r; cbn [fst]; rewrite ?IH; exact G.
 Qed.
 
-Lemma read_all_st l w : w_st (read_all calc1 calcx w l) = w_st w.
-Proof. revert w; induction l as [|j t IH]; intros w; cbn; auto. rewrite IH. apply get_property_st. Qed.
+Lemma read_all_cobjs l w : cobjs (w_cs (fst (read_all calc1 calcx w l))) = cobjs (w_cs w).
+Proof.
+  revert w; induction l as [|j t IH]; intros w; cbn; auto.
+  pose proof (get_property_cobjs calc1 calcx w j O true false) as G.
+  destruct (get_property calc1 calcx w j O true false) as [w1 r]. cbn [fst] in G.
+  destruct r; cbn [fst]; rewrite ?IH; exact G.
+Qed.
+
+Lemma read_all_aligned l w : aligned w -> aligned (fst (read_all calc1 calcx w l)).
+Proof. unfold aligned. rewrite read_all_st, read_all_cobjs. auto. Qed.
 
 Lemma lift_aligned w r : nob (fst r) = nob (w_st w) -> aligned w -> aligned (fst (lift w r)).
 Proof. unfold aligned, nob. cbn. intros -> A. exact A. Qed.
@@ -855,10 +890,13 @@ Proof.
   - (* OMix *)
     match goal with |- context [mix_flows ?a ?b ?c] => pose proof (mix_flows_nob a b c) as MF; set (s2 := mix_flows a b c) in * end.
     assert (A0 : aligned (mkw s c)) by exact A.
+    assert (MF' : length (objs s2) = length (objs s)) by (unfold nob in MF; rewrite MF; reflexivity). clear MF.
     destruct energy.
-    + pose proof (read_all_aligned srcs _ A0) as A1. unfold aligned in A1. rewrite read_all_st in A1. cbn [w_st] in A1.
-      apply lift_aligned; [reflexivity|]. unfold aligned, nob in *; cbn in *; lia.
-    + unfold aligned, nob in *; cbn in *; lia.
+    + pose proof (read_all_aligned srcs _ A0) as A1. pose proof (read_all_cobjs srcs (mkw s c)) as C1.
+      destruct (read_all calc1 calcx (mkw s c) srcs) as [w1 allok]. cbn [fst w_cs] in *.
+      destruct allok; cbn [negb]; [|exact A1].
+      apply lift_aligned; [reflexivity|]. unfold aligned, nob in *; cbn [w_st w_cs] in *. rewrite C1. lia.
+    + cbn [negb]. unfold aligned, nob in *; cbn in *; lia.
   - (* OMix1 *)
     pose proof (mix_flows_nob s i [j]) as MF. unfold aligned, nob in *; cbn [fst w_st w_cs]. lia.
   - (* OView *)
@@ -894,10 +932,10 @@ End Align.
 
 (* ---------- a read equals the read on a freshly constructed stream in the same state ---------- *)
 Lemma rd_equiv_sym a b : rd_equiv a b -> rd_equiv b a.
-Proof. intros [|x y E]; constructor. symmetry; exact E. Qed.
+Proof. intros [|x y E|]; constructor. symmetry; exact E. Qed.
 Lemma rd_equiv_trans a b c : rd_equiv a b -> rd_equiv b c -> rd_equiv a c.
 Proof.
-  intros [|x y E] H; inversion H; subst; constructor.
+  intros [|x y E|] H; inversion H; subst; constructor.
   etransitivity; eassumption.
 Qed.
 
@@ -1285,8 +1323,8 @@ Proof.
 Qed.
 
 Section Vol.
-Variable calc1 : nat -> nat -> option phase -> vec -> Q -> Q -> Q.
-Variable calcx : nat -> nat -> list (phase * vec) -> Q -> Q -> Q.
+Variable calc1 : nat -> nat -> option phase -> vec -> Q -> Q -> option Q.
+Variable calcx : nat -> nat -> list (phase * vec) -> Q -> Q -> option Q.
 Variable shared_key : bool.
 Variable cvol : nat -> phase -> Q -> Q -> Q.
 Notation step := (step calc1 calcx shared_key cvol).
@@ -1348,11 +1386,12 @@ Proof.
   - exact H.
   - eapply same3_sinv; [apply copy_phase_same3 | exact H].
   - (* OMix *)
-    assert (ES : w_st (if energy then read_all calc1 calcx (mkw s c) srcs else mkw s c) = s)
-      by (destruct energy; [apply read_all_st | reflexivity]).
     match goal with |- context [mix_flows ?a ?b ?cc] => pose proof (mix_flows_same3 a b cc) as MF; set (s2 := mix_flows a b cc) in * end.
     assert (H2 : SInv s2) by (eapply same3_sinv; [exact MF | exact H]).
-    destruct energy; [rewrite lift_st|]; exact H2.
+    destruct energy; cbn [negb]; [|exact H2].
+    pose proof (read_all_st calc1 calcx srcs (mkw s c)) as ES.
+    destruct (read_all calc1 calcx (mkw s c) srcs) as [w1 allok]. cbn [fst w_st] in ES.
+    destruct allok; cbn [negb]; [rewrite lift_st; exact H2 | cbn [fst]; rewrite ES; exact H].
   - (* OMix1 *) cbn [fst w_st]. eapply same3_sinv; [apply mix_flows_same3 | exact H].
   - (* OView *)
     destruct (i_multi _); [|destruct (Nat.eqb _ _); exact H].
